@@ -447,18 +447,49 @@ func ruleSwitchOnce(p *Program, r *Reporter) {
 	// wherever the translation of a switch sits: in the compiler's case or in a
 	// function of its own
 	var blocks []*ssa.BasicBlock
+	family := map[*ssa.Function]bool{}
 	for _, f := range compilerFamily(p, a) {
 		blocks = append(blocks, f.Blocks...)
+		family[f] = true
 	}
 	fn := a.compile
 	for _, b := range blocks {
 		for _, ins := range b.Instrs {
-			c, ok := staticCalleeIs(ins, a.compile)
-			if !ok || len(c.Call.Args) < 2 {
+			c, ok := ins.(*ssa.Call)
+			if !ok || c.Call.StaticCallee() == nil || len(c.Call.Args) < 2 {
 				continue
 			}
-			// the argument is a non-slice field of the switch node itself
-			v := c.Call.Args[1]
+			// a call of the compiler — or of a part of it that compiles the
+			// node it is handed — …
+			var v ssa.Value
+			if c.Call.StaticCallee() == a.compile {
+				v = c.Call.Args[1]
+			} else if family[c.Call.StaticCallee()] {
+				h := c.Call.StaticCallee()
+				for i, arg := range c.Call.Args {
+					if i == 0 || i >= len(h.Params) || !isASTish(arg.Type()) {
+						continue
+					}
+					fld, isLd := stripIfaceConv(arg).(*ssa.UnOp)
+					if !isLd {
+						continue
+					}
+					if fa, isFa := fld.X.(*ssa.FieldAddr); !isFa || !isNamed(deref(fa.X.Type()), "ast", "SwitchExpression") {
+						continue
+					}
+					for _, hb := range h.Blocks {
+						for _, hi := range hb.Instrs {
+							if c2, ok := staticCalleeIs(hi, a.compile); ok && len(c2.Call.Args) >= 2 && stripIfaceConv(c2.Call.Args[1]) == ssa.Value(h.Params[i]) {
+								v = arg
+							}
+						}
+					}
+				}
+			}
+			if v == nil {
+				continue
+			}
+			// … whose argument is a non-slice field of the switch node itself
 			for {
 				if mi, ok := v.(*ssa.MakeInterface); ok {
 					v = mi.X
@@ -760,61 +791,98 @@ func ruleBodyReturn(p *Program, r *Reporter) {
 				_ = fld
 				n++
 				key := fmt.Sprintf("%s/%s/the stored function ends in a return", p.FnName(fn), outerCase(p, fn, st.Pos()))
-				// walk back from the capture
+				// walk back from the capture — or, when the program is what a
+				// part of the compiler handed back, from each successful return
+				// of that part
 				bad := token.NoPos
-				seen := map[*ssa.BasicBlock]bool{}
-				var back func(bl *ssa.BasicBlock, from int)
-				back = func(bl *ssa.BasicBlock, from int) {
-					if bad.IsValid() {
-						return
+				walkBack := func(wf *ssa.Function, wb *ssa.BasicBlock, widx int, endPos token.Pos) {
+					wemits := map[ssa.Instruction]string{}
+					for _, es := range emitSites(p, a, wf) {
+						wemits[es.call] = es.op
 					}
-					for j := from; j >= 0; j-- {
-						in := bl.Instrs[j]
-						if op, ok := emits[in]; ok && op == "OpReturn" {
+					seen := map[*ssa.BasicBlock]bool{}
+					var back func(bl *ssa.BasicBlock, from int)
+					back = func(bl *ssa.BasicBlock, from int) {
+						if bad.IsValid() {
 							return
 						}
-						if c, ok := in.(*ssa.Call); ok && c.Call.StaticCallee() != nil && p.Reachable(c.Call.StaticCallee())[a.compile] && len(c.Call.Args) >= 2 && isASTish(c.Call.Args[1].Type()) {
-							bad = c.Pos()
+						for j := from; j >= 0; j-- {
+							in := bl.Instrs[j]
+							if op, ok := wemits[in]; ok && op == "OpReturn" {
+								return
+							}
+							if c, ok := in.(*ssa.Call); ok && c.Call.StaticCallee() != nil && p.Reachable(c.Call.StaticCallee())[a.compile] && len(c.Call.Args) >= 2 && isASTish(c.Call.Args[1].Type()) {
+								bad = c.Pos()
+								return
+							}
+						}
+						if len(bl.Preds) == 0 {
+							bad = endPos
 							return
 						}
-					}
-					if len(bl.Preds) == 0 {
-						bad = st.Pos()
-						return
-					}
-					for _, pd := range bl.Preds {
-						// did we come along the edge on which the last opcode is known to be a return?
-						if iff, ok := terminator(pd).(*ssa.If); ok {
-							if bo, ok := iff.Cond.(*ssa.BinOp); ok && (bo.Op == token.NEQ || bo.Op == token.EQL) {
-								x, y := bo.X, bo.Y
-								if _, isC := x.(*ssa.Const); isC {
-									x, y = y, x
-								}
-								if isOpcodeType(x.Type()) && readFromProgram(x, a) && oc.ssaName(y) == "OpReturn" {
-									knownSide := pd.Succs[0]
-									if bo.Op == token.NEQ {
-										knownSide = pd.Succs[1]
+						for _, pd := range bl.Preds {
+							// did we come along the edge on which the last opcode is known to be a return?
+							if iff, ok := terminator(pd).(*ssa.If); ok {
+								if bo, ok := iff.Cond.(*ssa.BinOp); ok && (bo.Op == token.NEQ || bo.Op == token.EQL) {
+									x, y := bo.X, bo.Y
+									if _, isC := x.(*ssa.Const); isC {
+										x, y = y, x
 									}
-									if knownSide == bl && pd.Succs[0] != pd.Succs[1] {
-										// the test itself must follow the body: nothing to check before it
-										continue
+									if isOpcodeType(x.Type()) && readFromProgram(x, a) && oc.ssaName(y) == "OpReturn" {
+										knownSide := pd.Succs[0]
+										if bo.Op == token.NEQ {
+											knownSide = pd.Succs[1]
+										}
+										if knownSide == bl && pd.Succs[0] != pd.Succs[1] {
+											// the test itself must follow the body: nothing to check before it
+											continue
+										}
 									}
 								}
 							}
-						}
-						if !seen[pd] {
-							seen[pd] = true
-							back(pd, len(pd.Instrs)-1)
+							if !seen[pd] {
+								seen[pd] = true
+								back(pd, len(pd.Instrs)-1)
+							}
 						}
 					}
+					back(wb, widx)
 				}
-				idx := 0
-				for j, in := range b.Instrs {
-					if in == ins {
-						idx = j
+				var helper *ssa.Function
+				if os := origins(st.Val); len(os) == 1 {
+					var cl *ssa.Call
+					switch x := os[0].(type) {
+					case *ssa.Extract:
+						if x.Index == 0 {
+							cl, _ = x.Tuple.(*ssa.Call)
+						}
+					case *ssa.Call:
+						cl = x
+					}
+					if cl != nil && cl.Call.StaticCallee() != nil && fnPkg(cl.Call.StaticCallee()) != nil && fnPkg(cl.Call.StaticCallee()).Pkg.Path() == Mod && p.Reachable(cl.Call.StaticCallee())[a.compile] {
+						helper = cl.Call.StaticCallee()
 					}
 				}
-				back(b, idx-1)
+				if helper != nil {
+					nret := 0
+					for _, hb := range helper.Blocks {
+						if ret, ok := terminator(hb).(*ssa.Return); ok && isSuccessReturn(ret) {
+							nret++
+							walkBack(helper, hb, len(hb.Instrs)-2, ret.Pos())
+						}
+					}
+					if nret == 0 {
+						bad = st.Pos()
+					}
+				} else {
+					idx := 0
+					for j, in := range b.Instrs {
+						if in == ins {
+							idx = j
+						}
+					}
+					walkBack(fn, b, idx-1, st.Pos())
+				}
 				if bad.IsValid() {
 					r.Fail(key, p.Pos(st.Pos()), "on some path from the translation of the body ("+p.Pos(bad)+") to this point no return instruction is emitted and the last instruction is not known to be one: the function's bytecode can end without a return — a body whose last statement is a switch without a default, say — and a call that reaches the end runs off the function")
 				} else {
